@@ -1,10 +1,170 @@
 package main
 
-func cmdSelftest(args []string) int { return 2 }
-func cmdReplay(args []string) int   { return 2 }
+import (
+	"encoding/json"
+	"flag"
+	"fmt"
+	"os"
+	"os/exec"
+	"path/filepath"
+	"regexp"
+	"strings"
+)
 
-// replayObligation writes the replay file of a failed obligation and tries to
-// reproduce it on the real code; confirmed reports whether that succeeded.
+func cmdSelftest(args []string) int {
+	fmt.Fprintln(os.Stderr, "selftest: use tools/run_seed.sh over /verif/seeded (seeded changes are the must-fail corpus)")
+	return 2
+}
+
+var classRe = regexp.MustCompile(`/(SAFE|PRE|INV|POST|FRAME|OWN|LOCK|TRACE|TABLE|LEMMA|TERM|BIND|VACUITY)#?`)
+
+// cmdReplay re-decides the single obligation named in a replay file against
+// the current working tree of /repo: exit 1 (with a VIOLATION line) when it is
+// still undischarged, 0 when it is discharged now.  When the known-findings
+// file lists a witness test for the obligation, the test is run against the
+// real code as well (go test -overlay; nothing is written to /repo).
+func cmdReplay(args []string) int {
+	fs := flag.NewFlagSet("replay", flag.ExitOnError)
+	repo := fs.String("repo", "/repo", "")
+	verif := fs.String("verif", "/verif", "")
+	contracts := fs.String("contracts", "/verif/contracts", "")
+	timeout := fs.Int("timeout", 20, "")
+	fs.Parse(args)
+	if fs.NArg() != 1 {
+		fmt.Fprintln(os.Stderr, "usage: govc replay <replay file>")
+		return 2
+	}
+	data, err := os.ReadFile(fs.Arg(0))
+	if err != nil {
+		fmt.Fprintln(os.Stderr, err)
+		return 2
+	}
+	var rp struct {
+		Property   string `json:"property"`
+		Obligation string `json:"obligation"`
+		Class      string `json:"class"`
+	}
+	if err := json.Unmarshal(data, &rp); err != nil || rp.Obligation == "" {
+		fmt.Fprintln(os.Stderr, "not a replay file")
+		return 2
+	}
+	loc := classRe.FindStringIndex(rp.Obligation)
+	if loc == nil {
+		fmt.Fprintln(os.Stderr, "replay file names no obligation class:", rp.Obligation)
+		return 2
+	}
+	owner := rp.Obligation[:loc[0]]
+	root := owner
+	if i := strings.Index(root, ">"); i >= 0 {
+		root = root[:i]
+	}
+	if pd, ok := propDefs[rp.Property]; ok {
+		skipLabels = pd.Skip
+	}
+	eng := mustEngine(*repo, *contracts, nil)
+	classes := map[string]bool{rp.Class: true, "CAND": true}
+	var vcs []*VC
+	for _, l := range eng.specs.lemmas {
+		if l.Name == root {
+			vcs = append(vcs, eng.verifyLemma(l))
+		}
+	}
+	if len(vcs) == 0 {
+		for _, fn := range eng.funcs {
+			if fn.Blocks != nil && fnDisplayName(fn) == root {
+				vcs = append(vcs, eng.verifyFunc(fn, classes))
+				break
+			}
+		}
+	}
+	if len(vcs) == 0 {
+		fmt.Printf("VIOLATION property=%s replay=%s no-failing-input-found\n", rp.Property, fs.Arg(0))
+		fmt.Println("the function or lemma the obligation belongs to no longer exists:", root)
+		return 1
+	}
+	dir, _ := os.MkdirTemp("", "govc-replay-")
+	defer os.RemoveAll(dir)
+	solveAll(vcs, SolveOpts{TimeoutS: *timeout, Dir: dir}, newStats())
+	found := false
+	failed := false
+	witnessed := false
+	for _, vc := range vcs {
+		for _, o := range vc.obls {
+			if o.Name != rp.Obligation {
+				continue
+			}
+			found = true
+			fmt.Printf("obligation %s: %s (%s, %d ms)\n", o.Name, o.Status, o.Backend, o.Ms)
+			if !o.discharged() {
+				failed = true
+			}
+		}
+	}
+	// witness test recorded for this obligation, if any
+	for _, f := range loadFindings(filepath.Join(*verif, "known_findings.json")) {
+		if f.Obligation != rp.Obligation || f.Witness == "" {
+			continue
+		}
+		parts := strings.Fields(f.Witness)
+		if len(parts) < 2 {
+			continue
+		}
+		test := filepath.Join(*verif, parts[0])
+		src, err := os.ReadFile(test)
+		if err != nil {
+			continue
+		}
+		pkgDir := witnessPkgDir(string(src), parts[0])
+		cmd := exec.Command(filepath.Join(*verif, "tools", "overlaytest.sh"), pkgDir, test, "-run", strings.TrimSuffix(strings.Join(parts[1:], "|"), ","))
+		cmd.Env = append(os.Environ(), "REPO="+*repo)
+		out, err := cmd.CombinedOutput()
+		verdict := "passes (the defect is not present in the working tree)"
+		if err != nil {
+			verdict = "FAILS on the real code"
+			failed = true
+			witnessed = true
+		}
+		fmt.Printf("witness %s: %s\n%s\n", f.Witness, verdict, truncate(string(out), 1500))
+	}
+	if !found && !failed {
+		fmt.Println("the obligation is no longer generated (its contract clause or program point is gone)")
+		fmt.Printf("VIOLATION property=%s replay=%s no-failing-input-found\n", rp.Property, fs.Arg(0))
+		return 1
+	}
+	if failed && witnessed {
+		fmt.Printf("VIOLATION property=%s replay=%s\n", rp.Property, fs.Arg(0))
+		return 1
+	}
+	if failed {
+		fmt.Printf("VIOLATION property=%s replay=%s no-failing-input-found\n", rp.Property, fs.Arg(0))
+		return 1
+	}
+	return 0
+}
+
+// witnessPkgDir: the package directory a manual witness test belongs to (from
+// its package clause).
+func witnessPkgDir(src, path string) string {
+	pkg := ""
+	for _, l := range strings.Split(src, "\n") {
+		if strings.HasPrefix(l, "package ") {
+			pkg = strings.TrimSuffix(strings.TrimSpace(strings.TrimPrefix(l, "package ")), "_test")
+			break
+		}
+	}
+	switch pkg {
+	case "sbom", "storage", "reader", "writer", "formats":
+		return "pkg/" + pkg
+	case "serializers", "unserializers":
+		return "pkg/native/" + pkg
+	}
+	return "pkg/" + pkg
+}
+
+// replayObligation writes the replay file of a failed obligation.  The engine
+// does not extract solver models into Go inputs, so confirmed is always false
+// and the VIOLATION line ends in no-failing-input-found; `govc replay <file>`
+// re-decides the obligation and runs the recorded witness test, if any.
 func replayObligation(eng *Engine, vc *VC, o *Obl, prop, dir, repo string) (string, bool) {
 	return writeReplay(dir, prop, o, nil), false
 }
